@@ -5,7 +5,11 @@
 package genql
 
 // every function of the package: error results are propagated (C19)
-//@ package-wide errors[C19] locks[C13,C10] safety[C10] nonnil-params
+//@ package-wide errors[C19] locks[C13,C10] safety[C10] frame[C11] nonnil-params
+//
+// C11: every write to a map[string]any or []any targets an object the writing activation allocated, an object named in a
+// `writes` clause of its contract, or a map the engine owns (held in the fields and globals listed here, never part of a document).
+//@ engine-owned Query.singletonExecutions Query.groupDefinition Options.vars Options.constants functions topLevelFunctions cache HashedTable.Keys HashedTable.Rows
 //
 // Pointer parameters of the functions below the API are non-nil (an obligation at every call site inside the module) unless a
 // contract says `nullable`; the API roots take whatever the caller passes.
@@ -478,3 +482,40 @@ package genql
 //@   ensures minus[C02]: err == nil && expr.Operator == sqlparser.UMinusOp && typeis(callresult(ValueOf, 0), float64) ==> typeis(result, *float64) && *result.(*float64) == -callresult(ValueOf, 0).(float64)
 //@   ensures tilda[C02]: err == nil && expr.Operator == sqlparser.TildaOp && typeis(callresult(ValueOf, 0), float64) ==> typeis(result, *float64) && *result.(*float64) == float64(^int64(callresult(ValueOf, 0).(float64)))
 //@   ensures bang[C02]: err == nil && expr.Operator == sqlparser.BangOp && typeis(callresult(ValueOf, 0), bool) ==> result == any(!callresult(ValueOf, 0).(bool))
+
+// ---------------------------------------------------------------------------
+// C11: the writes that do not target an object allocated by the writing activation
+
+// the reserved `<-` navigation key is the one entry the engine sets on (and removes from) rows it does not own; the
+// statement of C11 presupposes that documents do not use that key themselves. ComparisonExpr removes it with a deferred
+// delete; SubqueryExpr and ExistExpr register its removal as a post-processor (not run when the query fails: recorded finding).
+
+// closures that complete a row the engine built (data is the fresh output row of SelectExpr, captured)
+//@ func SelectExpr$1
+//@   writes data
+//@ func SelectExpr$2
+//@   writes data
+
+// CTE entries live in the copy of the document's top level made by BuildCte (captured as data)
+//@ func BuildCte$1
+//@   writes data
+
+// join helpers fill the output row their caller allocated
+//@ func Copy
+//@   writes out
+
+// ORDER BY sorts the slice it is given in place; callers hand it a slice they allocated
+//@ func Sort
+//@   writes slice
+//@ func ExecOrderBy
+//@   writes current
+//@ func ExecSelect
+//@   loop 0 invariant fresh-copy[C11]: fresh(copy)
+//@   ensures fresh-result[C11]: err == nil ==> fresh(result)
+//@ func ExecDistinct
+//@   loop 0 invariant fresh-slice[C11]: fresh(slice)
+//@   ensures same-or-fresh[C11]: err == nil ==> result == current || fresh(result)
+
+// the key columns of a join row are collected in a map allocated in the same iteration (its address is kept in the catalog)
+//@ func ToCatalog
+//@   writes mapper
